@@ -973,6 +973,7 @@ where
     let shard_ref = &self.shared.store.shards[shard_index];
 
     let mut deferred = None;
+    let mut stale_hit = false;
     let hit_value = {
       let guard = shard_ref.map.read_async().await;
       if let Some((found_key, entry_in_guard)) = guard.get_key_value(key) {
@@ -1004,7 +1005,7 @@ where
             if now_nanos < expires_at_nanos + grace_period.as_nanos() as u64
               && !entry_in_guard.is_idle_expired(self.shared.time_to_idle)
             {
-              self.trigger_background_load(found_key);
+              stale_hit = true;
               Some(entry_in_guard.value())
             } else {
               None
@@ -1025,6 +1026,11 @@ where
         .await;
     }
 
+    if stale_hit {
+      // after the shard guard is gone, so that the pending lock can be waited for
+      self.trigger_background_load(key).await;
+    }
+
     if let Some(val) = hit_value {
       return val;
     }
@@ -1034,22 +1040,25 @@ where
   }
 
   /// Private helper to trigger a background refresh for stale items.
-  fn trigger_background_load(&self, key: &K)
+  async fn trigger_background_load(&self, key: &K)
   where
-    K: Clone + 'static,
-    V: 'static,
+    K: Clone + Send + Sync + 'static,
+    V: Send + Sync + 'static,
+    H: BuildHasher + Clone + Send + Sync,
   {
+    // The stripe lock may be busy with a load of *another* key: giving up then would serve the
+    // stale value without ever refreshing it, so wait for the lock (no shard lock is held here).
     let hash = crate::store::hash_key(&self.shared.store.hasher, &key);
     let index = hash as usize & (self.shared.pending_loads.len() - 1);
     let pending_loads_lock = &self.shared.pending_loads[index];
-    if let Some(mut pending) = pending_loads_lock.try_lock() {
-      if pending.contains_key(key) {
-        return;
-      }
-      let future = Arc::new(LoadFuture::new());
-      pending.insert(key.clone(), future.clone());
-      CacheShared::spawn_loader_task(Arc::clone(&self.shared), key.clone(), future);
+    let mut pending = pending_loads_lock.lock_async().await;
+    if pending.contains_key(key) {
+      return;
     }
+    let future = Arc::new(LoadFuture::new());
+    pending.insert(key.clone(), future.clone());
+    drop(pending);
+    CacheShared::spawn_loader_task(Arc::clone(&self.shared), key.clone(), future);
   }
 
   /// Private helper for the "miss" path of `fetch_with_async`.
@@ -1082,8 +1091,8 @@ where
       // 3. No load is in flight. One may have *completed* between our cache miss and this
       //    lock (value inserted, pending entry removed): look again, or the loader would run
       //    a second time for the same miss. Taking the shard lock under the pending lock is
-      //    safe: the only path that nests them the other way round (the stale-refresh
-      //    trigger) uses try_lock.
+      //    safe: no path takes them the other way round (the stale-refresh trigger runs after
+      //    its shard guard is released).
       if let Some(value) = self.peek(key).await {
         self.shared.metrics.record_hits(index, 1);
         return value;
